@@ -420,6 +420,68 @@ func runC11(w *World, r *Report) {
 	}
 
 	// ---- state-required
+	// what a resume starts from is decoded from the stored bytes in this very call: a decoded checkpoint object is never
+	// handed out twice (the run mutates it — the state modifier is applied in place, the state object goes into the run's
+	// context, the handlers update it)
+	r.Rule("C11.restored-state-fresh", "checkPointer.get returns only the checkpoint it has just decoded from the store's bytes (or nil)", 1)
+	{
+		get := w.Fn("compose", "checkPointer.get")
+		var unm ssa.Value
+		instrs(get, func(in ssa.Instruction) {
+			if c, ok := in.(*ssa.Call); ok && (invokeName(c) == "Unmarshal" || (staticCallee(c) != nil && staticCallee(c).Name() == "Unmarshal")) {
+				unm = c
+			}
+		})
+		var fresh func(v ssa.Value, d int) bool
+		fresh = func(v ssa.Value, d int) bool {
+			if d > 8 || v == nil {
+				return false
+			}
+			if isNilConst(v) {
+				return true
+			}
+			switch x := v.(type) {
+			case *ssa.TypeAssert:
+				return fresh(x.X, d+1)
+			case *ssa.Extract:
+				return x.Tuple == unm || fresh(x.Tuple, d+1)
+			case *ssa.Phi:
+				for _, e := range x.Edges {
+					if !fresh(e, d+1) {
+						return false
+					}
+				}
+				return len(x.Edges) > 0
+			case *ssa.UnOp: // load of a local cell: every store into it is fresh
+				if al, ok := x.X.(*ssa.Alloc); ok {
+					n := 0
+					for _, st := range storesToCell(get, al) {
+						n++
+						if !fresh(st.Val, d+1) {
+							return false
+						}
+					}
+					return n > 0
+				}
+			case *ssa.Call:
+				return ssa.Value(x) == unm
+			}
+			return false
+		}
+		n := 0
+		instrs(get, func(in ssa.Instruction) {
+			ret, ok := in.(*ssa.Return)
+			if !ok || len(ret.Results) != 3 {
+				return
+			}
+			n++
+			r.Check(unm != nil && fresh(ret.Results[0], 0), "C11.restored-state-fresh", fmt.Sprintf("checkPointer.get: return #%d", n), ret.Pos(), "nil or the value decoded by Unmarshal in this call", "get can hand out a checkpoint object that was not decoded in this call (a cache / a retained object): a second resume from the same id starts from the state as the first resume mutated it — the state is not 'carried unchanged', and two runs share one state object under two different mutexes")
+		})
+		if n == 0 {
+			r.Fail("C11.restored-state-fresh", "checkPointer.get returns", get.Pos(), "no 3-result return found")
+		}
+	}
+
 	r.Rule("C11.state-required", "addNode rejects nodes needing state when the graph has no state generator", 1)
 	addNode := w.Fn("compose", "graph.addNode")
 	fSG := w.Field("compose", "graph", "stateGenerator")
